@@ -1,5 +1,7 @@
 import YaegiVerif.Proofs.C03Decl
-/- C03: constant declarations (two more walks with a type pushed down) on the untyped integer fragment -/
+/- C03: the untyped integer fragment under a pushed-down type and in the later walks of a constant declaration:
+   an operation on untyped constants stays an untyped constant whatever the context expects (7973ebe), so every walk
+   computes the same node and the declared type is checked where the constant is assigned. -/
 namespace YaegiVerif.Proofs.C03
 open YaegiVerif YaegiVerif.Const
 
@@ -28,267 +30,200 @@ theorem ufrag_intShape : ∀ e, ufrag e = true → intShape e = true := by
   | bool _ => intro h; simp [ufrag] at h
   | str _ => intro h; simp [ufrag] at h
 
-/-- both operands untyped integer constants, node type pushed down -/
-theorem binNodeY_uu_forced (env : Env) (kf : UK) (hkf : kf = .int ∨ kf = .rune) (a : Act) (ha : isArith a = true)
-    (c0 c1 : NS) (ka kb : UK) (p q : Int) (hka : ka = .int ∨ ka = .rune) (hkb : kb = .int ∨ kb = .rune)
-    (h0ty : c0.ty = .u ka) (h0rv : c0.rv = .c (.int p)) (h1ty : c1.ty = .u kb) (h1rv : c1.rv = .c (.int q))
-    (hz : ¬ (needsNZ a = true ∧ q = 0)) :
-    binNodeY F0 env (some (.u kf)) a c0 c1 =
-      .ok { rv := .c (.int (iop a p q)), ty := if a = .rem then .u (umax ka kb) else .u kf,
-            inner := c0.loose || c1.loose } := by
-  have hz1 := zeroConstY_untyped c1 kb q h1ty h1rv
-  have hfold : ∀ nty : Ty, nty.untyped = true → nty.isInt = true →
-      foldBinY F0 a nty (.c (.int p)) (.c (.int q)) = .ok (.c (.int (iop a p q))) :=
-    fun nty _ _ => foldBinY_const a ha nty p q hz
-  obtain ⟨rv0, ty0, s0, i0, f0⟩ := c0
-  obtain ⟨rv1, ty1, s1, i1, f1⟩ := c1
-  simp only at h0ty h0rv h1ty h1rv
-  subst h0ty h0rv h1ty h1rv
-  have hzz : (a = .rem ∨ a = .quo) → q ≠ 0 := by
-    intro h0 h; rcases h0 with rfl | rfl <;> exact hz ⟨rfl, h⟩
-  rcases hkf with rfl | rfl <;> rcases hka with rfl | rfl <;> rcases hkb with rfl | rfl <;>
-    (cases a <;> simp [isArith] at ha <;>
-       (simp [binNodeY, checkBinaryY, hz1, hzz, convertUntypedY, binaryPredY, Ty.untyped, Ty.isInt, Ty.isFloat,
-             Ty.isNumber, Ty.kindRank, Ty.rtype, BT.isInt, BT.isFloat, fixUntypedY, umax, Spec.ukRank, NS.loose]
-        rw [hfold _ rfl rfl]; rfl))
+/-- a type that may be pushed down onto a numeric expression: none, or a numeric one -/
+def NumForced (forced : Option Ty) : Prop := ∀ f, forced = some f → f.isNumber = true
 
-/-- both operands untyped integer constants, no type pushed down, any environment (an untyped node type never
-    makes `fixUntyped` touch `sc.types`) -/
-theorem binNodeY_uu' (env : Env) (a : Act) (ha : isArith a = true) (c0 c1 : NS)
-    (ka kb : UK) (p q : Int) (hka : ka = .int ∨ ka = .rune) (hkb : kb = .int ∨ kb = .rune)
-    (h0ty : c0.ty = .u ka) (h0rv : c0.rv = .c (.int p)) (h1ty : c1.ty = .u kb) (h1rv : c1.rv = .c (.int q))
-    (hq : a = .quo → ¬ (ka = .rune ∧ kb = .int)) (hz : ¬ (needsNZ a = true ∧ q = 0)) :
-    binNodeY F0 env none a c0 c1 =
-      .ok { rv := .c (.int (iop a p q)), ty := .u (umax ka kb), inner := c0.loose || c1.loose } := by
-  have hz1 := zeroConstY_untyped c1 kb q h1ty h1rv
-  have hfold : ∀ nty : Ty, nty.untyped = true → nty.isInt = true →
-      foldBinY F0 a nty (.c (.int p)) (.c (.int q)) = .ok (.c (.int (iop a p q))) :=
-    fun nty _ _ => foldBinY_const a ha nty p q hz
-  obtain ⟨rv0, ty0, s0, i0, f0⟩ := c0
-  obtain ⟨rv1, ty1, s1, i1, f1⟩ := c1
-  simp only at h0ty h0rv h1ty h1rv
-  subst h0ty h0rv h1ty h1rv
-  have hzz : (a = .rem ∨ a = .quo) → q ≠ 0 := by
-    intro h0 h; rcases h0 with rfl | rfl <;> exact hz ⟨rfl, h⟩
-  rcases hka with rfl | rfl <;> rcases hkb with rfl | rfl <;>
-    (cases a <;> simp [isArith] at ha <;> first
-      | exact absurd ⟨rfl, rfl⟩ (hq rfl)
-      | (simp [binNodeY, checkBinaryY, hz1, hzz, convertUntypedY, binaryPredY, binTypeY, Ty.untyped, Ty.isInt, Ty.isFloat,
-             Ty.isNumber, Ty.kindRank, Ty.rtype, BT.isInt, BT.isFloat, fixUntypedY, umax, Spec.ukRank, NS.loose]
-         rw [hfold _ rfl rfl]; rfl))
+/-- an untyped integer (or rune) constant node -/
+def UNode (n : NS) : Prop := ∃ k v, (k = UK.int ∨ k = UK.rune) ∧ n.ty = .u k ∧ n.rv = .c (.int v)
 
-/-- a shift whose left operand is an untyped integer constant -/
-theorem shiftNodeY_untyped (env : Env) (forced : Option Ty) (a : Act) (ha : isShift a = true) (c0 c1 : NS)
-    (g1 : Spec.GV) (i1 : Inv c1 g1) (ka : UK) (v c : Int) (hka : ka = .int ∨ ka = .rune)
-    (h0ty : c0.ty = .u ka) (h0rv : c0.rv = .c (.int v)) (hcnt : Spec.shiftCount g1 = some c) (hc100 : c ≤ 100000)
-    (hf : forced = none ∨ ∃ kf, forced = some (.u kf)) :
-    ∃ n, shiftNodeY F0 env forced a c0 c1 = .ok n ∧ n.rv = .c (.int (sh a v c.toNat)) ∧
-      n.ty = (match forced with | some f => f | none => .u ka) := by
-  obtain ⟨c1', hc1, hv1, hc0, _⟩ := count_operand c1 g1 i1 c hcnt
-  have hl : shiftLeftY c0 = .ok { c0 with rv := .c (.int v) } := by
-    simp [shiftLeftY, h0ty, h0rv, Ty.untyped, CV.toInt]
-  rcases hf with rfl | ⟨kf, rfl⟩
-  · have hfo := foldShiftY_const a ha (.u ka) v c1'.rv c hv1 hc0 hc100
-    refine ⟨{ rv := .c (.int (sh a v c.toNat)), ty := .u ka,
-              inner := ({ c0 with rv := .c (.int v) } : NS).loose || c1'.loose }, ?_, rfl, rfl⟩
-    simp [shiftNodeY, checkShiftY, hl, hc1, h0ty, Ty.untyped, binTypeY, hfo, fixUntypedY]
-  · have hfo := foldShiftY_const a ha (.u kf) v c1'.rv c hv1 hc0 hc100
-    refine ⟨{ rv := .c (.int (sh a v c.toNat)), ty := .u kf,
-              inner := ({ c0 with rv := .c (.int v) } : NS).loose || c1'.loose }, ?_, rfl, rfl⟩
-    simp [shiftNodeY, checkShiftY, hl, hc1, h0ty, Ty.untyped, hfo, fixUntypedY]
+theorem shiftLeftY_U (c0 : NS) (h : UNode c0) : shiftLeftY c0 = .ok c0 := by
+  obtain ⟨k, v, _, hty, hrv⟩ := h
+  obtain ⟨rv0, ty0, s0, i0, f0, t0⟩ := c0
+  simp only at hty hrv
+  subst hty hrv
+  simp [shiftLeftY, Ty.untyped, CV.toInt]
 
-/-- what a walk with an (untyped) type pushed down preserves: the value, an untyped integer kind, and — where the
-    specification's type is the pushed one — that type -/
-def UOk (forced : Option Ty) (n : NS) (gv : Spec.GV) : Prop :=
-  ∃ k kg v, (k = UK.int ∨ k = UK.rune) ∧ (kg = UK.int ∨ kg = UK.rune) ∧ n.ty = .u k ∧ n.rv = .c (.int v) ∧
-    gv = ⟨.int v, .u kg⟩ ∧
-    (match forced with
-     | none => k = kg
-     | some f => (Ty.u kg = f → Ty.u k = f))
+/-- a shift of an untyped constant: the pushed-down type and the environment play no part -/
+theorem shiftNodeY_U (env env' : Env) (forced : Option Ty) (a : Act) (ha : isShift a = true) (c0 c1 : NS) (h0 : UNode c0) :
+    shiftNodeY F0 env forced a c0 c1 = shiftNodeY F0 env' none a c0 c1 := by
+  obtain ⟨k, v, hk, hty, hrv⟩ := h0
+  simp only [shiftNodeY, checkShiftY_eq, shiftLeftY_U c0 ⟨k, v, hk, hty, hrv⟩, bind_ok]
+  cases hcc : countCheck c1 with
+  | ok c1' =>
+    simp only [bind_ok, hty, Ty.untyped, Bool.not_true, Bool.false_eq_true, if_false]
+    have hn : nodeTyY F0 forced true c0 c1' = nodeTyY F0 none true c0 c1' := by
+      cases forced with
+      | none => rfl
+      | some f => simp [nodeTyY, stayUntypedY, isUntypedConstY, hty, hrv, isConstRV, Ty.untyped, binTypeY, Expected.C03.checkFacts]
+    rw [hn]
+    simp only [fixUntypedY, F0_fixSkipsConst, Bool.not_true, Bool.false_and]
+  | reject => rfl
+  | crash => rfl
+  | unm w => rfl
 
-theorem shiftCount_untyped (q : Int) (k kg : UK) (hk : k = .int ∨ k = .rune) (hkg : kg = .int ∨ kg = .rune) :
-    Spec.shiftCount ⟨.int q, .u k⟩ = Spec.shiftCount ⟨.int q, .u kg⟩ := by
-  rcases hk with rfl | rfl <;> rcases hkg with rfl | rfl <;> rfl
+theorem shiftNodeY_U_out (env : Env) (a : Act) (ha : isShift a = true) (c0 c1 : NS) (h0 : UNode c0) (n : NS)
+    (h : shiftNodeY F0 env none a c0 c1 = .ok n) : UNode n := by
+  obtain ⟨k, v, hk, hty, hrv⟩ := h0
+  simp only [shiftNodeY, checkShiftY_eq, shiftLeftY_U c0 ⟨k, v, hk, hty, hrv⟩, bind_ok] at h
+  cases hcc : countCheck c1 with
+  | reject => rw [hcc] at h; cases h
+  | crash => rw [hcc] at h; cases h
+  | unm w => rw [hcc] at h; cases h
+  | ok c1' =>
+  simp only [hcc, bind_ok, hty, Ty.untyped, Bool.not_true, Bool.false_eq_true, if_false] at h
+  have hn : nodeTyY F0 none true c0 c1' = .u k := by simp [nodeTyY, stayUntypedY, binTypeY, hty, Ty.untyped]
+  rw [hn] at h
+  obtain ⟨_, _, h⟩ := bind_eq_ok h
+  obtain ⟨rv, hfold, h⟩ := bind_eq_ok h
+  obtain ⟨_, _, h⟩ := bind_eq_ok h
+  -- the fold of an Int-kinded constant is an Int-kinded constant
+  have hrvc : ∃ w, rv = .c (.int w) := by
+    rw [hrv] at hfold
+    simp only [foldShiftY] at hfold
+    split at hfold
+    · cases hfold
+    · split at hfold
+      · cases hfold
+      · obtain ⟨s, _, hfold⟩ := bind_eq_ok hfold
+        split at hfold
+        · cases hfold
+        · split at hfold <;> first
+            | (injection hfold with hfold; exact ⟨_, hfold.symm⟩)
+            | (cases ‹CV.int v = CV.unknown›)
+            | (cases hfold; done)
+  obtain ⟨w, rfl⟩ := hrvc
+  simp only [fixUntypedY, F0_fixSkipsConst, Bool.not_true, Bool.false_and, Bool.false_eq_true, if_false] at h
+  injection h with h
+  subst h
+  exact ⟨k, w, hk, rfl, rfl⟩
 
-theorem umax_cases (ka kb : UK) (hka : ka = .int ∨ ka = .rune) (hkb : kb = .int ∨ kb = .rune) :
-    (umax ka kb = .int ∧ ka = .int ∧ kb = .int) ∨ (umax ka kb = .rune ∧ (ka = .rune ∨ kb = .rune)) := by
-  rcases hka with rfl | rfl <;> rcases hkb with rfl | rfl <;> simp [umax, Spec.ukRank]
-
-theorem evalY_ufrag : ∀ e, ufrag e = true → ∀ (env : Env) (forced : Option Ty), env.typedDecl = false →
-    (forced = none ∨ ∃ kf, (kf = UK.int ∨ kf = UK.rune) ∧ forced = some (.u kf)) →
-    noRuneQuo env.iota e = true → ∀ gv, Spec.evalGo env.iota e = .ok gv →
-    ∃ n, evalY F0 env forced e = .ok n ∧ UOk forced n gv := by
+/-- on the untyped integer fragment a walk computes the same node whatever numeric type is pushed down and
+    whichever walk it is, and that node is an untyped integer constant -/
+theorem evalY_ufrag_indep : ∀ e, ufrag e = true → ∀ (env : Env) (forced : Option Ty), NumForced forced →
+    evalY F0 env forced e = evalY F0 { iota := env.iota } none e ∧
+    ∀ n, evalY F0 { iota := env.iota } none e = .ok n → UNode n := by
   intro e
   induction e with
-  | int v =>
-    intro _ env forced _ hf _ gv hgo
-    simp only [Spec.evalGo] at hgo; injection hgo with hgo; subst hgo
-    refine ⟨{ rv := .c (.int v), ty := .u .int, fidx := true }, by simp [evalY], .int, .int, v, Or.inl rfl, Or.inl rfl, rfl, rfl, rfl, ?_⟩
-    rcases hf with rfl | ⟨kf, _, rfl⟩ <;> simp
-  | rune v =>
-    intro _ env forced _ hf _ gv hgo
-    simp only [Spec.evalGo] at hgo; injection hgo with hgo; subst hgo
-    refine ⟨{ rv := .c (.int v), ty := .u .rune, fidx := true }, by simp [evalY], .rune, .rune, v, Or.inr rfl, Or.inr rfl, rfl, rfl, rfl, ?_⟩
-    rcases hf with rfl | ⟨kf, _, rfl⟩ <;> simp
-  | iota =>
-    intro _ env forced _ hf _ gv hgo
-    simp only [Spec.evalGo] at hgo; injection hgo with hgo; subst hgo
-    refine ⟨{ rv := .c (.int env.iota), ty := .u .int, fidx := true }, by simp [evalY], .int, .int, _, Or.inl rfl, Or.inl rfl, rfl, rfl, rfl, ?_⟩
-    rcases hf with rfl | ⟨kf, _, rfl⟩ <;> simp
+  | int v => intro _ env forced _; exact ⟨by simp [evalY], fun n h => by simp [evalY] at h; subst h; exact ⟨.int, v, Or.inl rfl, rfl, rfl⟩⟩
+  | rune v => intro _ env forced _; exact ⟨by simp [evalY], fun n h => by simp [evalY] at h; subst h; exact ⟨.rune, v, Or.inr rfl, rfl, rfl⟩⟩
+  | iota => intro _ env forced _; exact ⟨by simp [evalY], fun n h => by simp [evalY] at h; subst h; exact ⟨.int, _, Or.inl rfl, rfl, rfl⟩⟩
   | flt q => intro h; simp [ufrag] at h
   | bool b => intro h; simp [ufrag] at h
   | str s => intro h; simp [ufrag] at h
   | len x _ => intro h; simp [ufrag] at h
   | conv t x _ => intro h; simp [ufrag] at h
   | par x ih =>
-    intro hs env forced htd hf hq gv hgo
+    intro hs env forced hf
     simp only [ufrag] at hs
-    simp only [noRuneQuo] at hq
-    simp only [Spec.evalGo] at hgo
-    obtain ⟨n, hn, k, kg, v, hk, hkg, hty, hrv, hgv, hfor⟩ := ih hs env forced htd hf hq gv hgo
-    exact ⟨{ n with self := n.fidx && n.ty.untyped, inner := n.loose }, by simp [evalY, hn],
-      k, kg, v, hk, hkg, hty, hrv, hgv, hfor⟩
+    obtain ⟨h1, h2⟩ := ih hs env forced hf
+    refine ⟨by simp only [evalY, h1], ?_⟩
+    intro n hn
+    simp only [evalY] at hn
+    obtain ⟨c, hc, hn⟩ := bind_eq_ok hn
+    injection hn with hn; subst hn
+    obtain ⟨k, v, hk, hty, hrv⟩ := h2 c hc
+    exact ⟨k, v, hk, hty, hrv⟩
   | un a x ih =>
-    intro hs env forced htd hf hq gv hgo
+    intro hs env forced hf
     simp only [ufrag, Bool.and_eq_true] at hs
-    simp only [noRuneQuo] at hq
-    simp only [Spec.evalGo] at hgo
-    obtain ⟨g0, hg0, hu⟩ := bind_eq_ok hgo
-    obtain ⟨c0, hc0, k, kg, v, hk, hkg, hty, hrv, hgv, hfor⟩ := ih hs.2 env forced htd hf hq g0 hg0
-    subst hgv
-    have hnode := unNodeY_untyped a hs.1 c0 k hk v hty hrv
-    -- the Go side keeps the type and applies the operator
-    have hgvv : gv = ⟨.int (uop a v), .u kg⟩ := by
+    obtain ⟨h1, h2⟩ := ih hs.2 env forced hf
+    have hnot : (a == Act.not) = false := by
       have ha := hs.1
-      rcases hkg with rfl | rfl <;> cases a <;> simp [isUnArith] at ha <;>
-        simp only [Spec.unaryGo, Spec.isNumTy, Spec.isIntTy, Bool.true_or, if_true] at hu <;>
-        first
-        | (injection hu with hu; exact hu.symm)
-        | exact finish_untyped_int _ _ (by simp) gv hu
-    subst hgvv
-    exact ⟨{ rv := .c (.int (uop a v)), ty := .u k, inner := c0.loose },
-      by simp [evalY, isBoolAct_unarith a hs.1, hc0, hnode], k, kg, _, hk, hkg, rfl, rfl, rfl, hfor⟩
+      cases a <;> simp [isUnArith] at ha <;> rfl
+    refine ⟨by simp only [evalY, hnot, Bool.false_eq_true, if_false, h1], ?_⟩
+    intro n hn
+    simp only [evalY, hnot, Bool.false_eq_true, if_false] at hn
+    obtain ⟨c, hc, hn⟩ := bind_eq_ok hn
+    obtain ⟨k, v, hk, hty, hrv⟩ := h2 c hc
+    rw [unNodeY_untyped a hs.1 c k hk v hty hrv] at hn
+    split at hn
+    · cases hn
+    · injection hn with hn; subst hn; exact ⟨k, _, hk, rfl, rfl⟩
   | bin a x y ihx ihy =>
-    intro hs env forced htd hf hq gv hgo
+    intro hs env forced hf
     simp only [ufrag, Bool.and_eq_true] at hs
-    simp only [noRuneQuo, Bool.and_eq_true, Bool.not_eq_true'] at hq
-    obtain ⟨⟨hqx, hqy⟩, hqa⟩ := hq
-    simp only [Spec.evalGo] at hgo
-    obtain ⟨g0, hg0, hgo⟩ := bind_eq_ok hgo
-    obtain ⟨g1, hg1, hgo⟩ := bind_eq_ok hgo
-    obtain ⟨c0, hc0, k0, kg0, p, hk0, hkg0, h0ty, h0rv, hg0v, hfor0⟩ := ihx hs.1.2 env forced htd hf hqx g0 hg0
-    obtain ⟨c1, hc1, k1, kg1, q, hk1, hkg1, h1ty, h1rv, hg1v, hfor1⟩ := ihy hs.2 env forced htd hf hqy g1 hg1
-    subst hg0v hg1v
-    have hnb := isBoolAct_arith a hs.1.1
-    by_cases hsh : isShift a = true
-    · -- shift
-      have hcond : (a == .shl || a == .shr) = true := by simpa [isShift] using hsh
-      rw [if_pos hcond] at hgo
-      simp only [Spec.shiftGo] at hgo
-      cases hcnt : Spec.shiftCount ⟨.int q, .u kg1⟩ with
-      | none => simp [hcnt] at hgo
-      | some c =>
-        simp only [hcnt] at hgo
-        by_cases hbig : c > Spec.shiftBound
-        · simp [hbig] at hgo
-        · rw [if_neg hbig] at hgo
-          have hc100 : c ≤ 100000 := by simp only [Spec.shiftBound] at hbig; omega
-          have hleft : Spec.shiftLeft ⟨.int p, .u kg0⟩ = some (p, .u kg0) := by
-            rcases hkg0 with rfl | rfl <;> rfl
-          simp only [hleft] at hgo
-          have hfin : Spec.finish (.int (sh a p c.toNat)) (.u kg0) = .ok gv := by
-            cases a <;> simp [isShift] at hsh <;> simpa [sh] using hgo
-          have hgv := finish_untyped_int _ _ hkg0 gv hfin
-          subst hgv
-          have hcnt' : Spec.shiftCount ⟨.int q, .u k1⟩ = some c := by
-            rw [shiftCount_untyped q k1 kg1 hk1 hkg1]; exact hcnt
-          have i1 : Inv c1 ⟨.int q, .u k1⟩ := Inv.of_untyped _ _ _ hk1 h1ty h1rv
-          have hf' : forced = none ∨ ∃ kf, forced = some (.u kf) := by
-            rcases hf with h | ⟨kf, _, h⟩
-            · exact Or.inl h
-            · exact Or.inr ⟨kf, h⟩
-          obtain ⟨n, hn, hnrv, hnty⟩ := shiftNodeY_untyped env forced a hsh c0 c1 _ i1 k0 p c hk0 h0ty h0rv hcnt' hc100 hf'
-          have hsa : isShiftAct a = true := by simpa [isShiftAct, isShift] using hsh
-          refine ⟨n, by simp [evalY, hnb, hc0, hc1, hsa, hn], ?_⟩
-          rcases hf with rfl | ⟨kf, hkf, rfl⟩
-          · exact ⟨k0, kg0, _, hk0, hkg0, hnty, hnrv, rfl, hfor0⟩
-          · exact ⟨kf, kg0, _, hkf, hkg0, hnty, hnrv, rfl, fun _ => rfl⟩
-    · -- arithmetic
-      have har : isArith a = true := by
-        have h := hs.1.1
-        rw [Bool.or_eq_true] at h
-        rcases h with h | h
-        · exact h
-        · exact absurd h hsh
-      have hcond : ¬ ((a == .shl || a == .shr) = true) := by simpa [isShift] using hsh
-      rw [if_neg hcond] at hgo
-      have hsa : isShiftAct a = false := by simpa [isShiftAct, isShift] using hsh
-      rw [matchTypes_uu kg0 kg1 p q hkg0 hkg1] at hgo
-      simp only [bind_ok] at hgo
-      have hcmp : Spec.isCmp a = false := by cases a <;> simp [isArith] at har <;> rfl
-      have hland : (a == .land || a == .lor) = false := by cases a <;> simp [isArith] at har <;> rfl
-      simp only [hcmp, hland, Bool.false_eq_true, if_false] at hgo
-      have humaxg : umax kg0 kg1 = .int ∨ umax kg0 kg1 = .rune := by
-        rcases hkg0 with rfl | rfl <;> rcases hkg1 with rfl | rfl <;> simp [umax, Spec.ukRank]
-      have hint : Spec.isIntTy (.u (umax kg0 kg1)) = true := by
-        rcases humaxg with h | h <;> rw [h] <;> rfl
-      rw [arithGo_int a har p q _ hint] at hgo
-      by_cases hz : needsNZ a = true ∧ q = 0
-      · rw [if_pos hz] at hgo; cases hgo
-      · rw [if_neg hz] at hgo
-        have hgv := finish_untyped_int _ _ humaxg gv hgo
-        subst hgv
-        -- the extra work of the second walk does nothing here: the sibling types of the first walk are untyped
-        have hkeep : ∀ forced', evalY F0 env forced' (.bin a x y) =
-            (evalY F0 env forced' x).bind fun c0 => (evalY F0 env forced' y).bind fun c1 =>
-              binNodeY F0 env forced' a c0 c1 := by
-          intro forced'
-          by_cases hp2 : (env.pass2 && !env.typedDecl && a != Act.quo) = true
-          · have htd' : ({ env with pass2 := false } : Env).typedDecl = false := htd
-            obtain ⟨s0, hs0, k0', _, _, _, _, hs0ty, _, _, _⟩ := ihx hs.1.2 { env with pass2 := false } none htd' (Or.inl rfl) hqx _ hg0
-            obtain ⟨s1, hs1, k1', _, _, _, _, hs1ty, _, _, _⟩ := ihy hs.2 { env with pass2 := false } none htd' (Or.inl rfl) hqy _ hg1
-            simp [evalY, hnb, hsa, hp2, hs0, hs1, hs0ty, hs1ty, Ty.untyped]
-          · simp [evalY, hnb, hsa, hp2]
-        rw [hkeep forced, hc0, hc1]
+    obtain ⟨hx1, hx2⟩ := ihx hs.1.2 env forced hf
+    obtain ⟨hy1, hy2⟩ := ihy hs.2 env forced hf
+    -- the first-walk evaluations used by the later walks are the same nodes again
+    have hx0 := (ihx hs.1.2 { env with pass2 := false } none (fun _ h => by cases h)).1
+    have hy0 := (ihy hs.2 { env with pass2 := false } none (fun _ h => by cases h)).1
+    have hcl : (isCmpAct a || isLogicAct a) = false := by
+      have ha := hs.1.1
+      cases a <;> simp [isArith, isShift] at ha <;> rfl
+    have key : ∀ (c0 c1 : NS), UNode c0 → UNode c1 →
+        ((if isShiftAct a = true then shiftNodeY F0 env forced a c0 c1 else binNodeY F0 env forced a c0 c1) =
+         (if isShiftAct a = true then shiftNodeY F0 { iota := env.iota } none a c0 c1
+          else binNodeY F0 { iota := env.iota } none a c0 c1)) ∧
+        ∀ n, (if isShiftAct a = true then shiftNodeY F0 { iota := env.iota } none a c0 c1
+          else binNodeY F0 { iota := env.iota } none a c0 c1) = .ok n → UNode n := by
+      intro c0 c1 u0 u1
+      by_cases hsh : isShift a = true
+      · have hsa : isShiftAct a = true := by simpa [isShiftAct, isShift] using hsh
+        simp only [hsa, if_true]
+        exact ⟨shiftNodeY_U env _ forced a hsh c0 c1 u0, fun n hn => shiftNodeY_U_out _ a hsh c0 c1 u0 n hn⟩
+      · have hsa : isShiftAct a = false := by simpa [isShiftAct, isShift] using hsh
+        have har : isArith a = true := by
+          have h := hs.1.1
+          rw [Bool.or_eq_true] at h
+          rcases h with h | h
+          · exact h
+          · exact absurd h hsh
+        obtain ⟨ka, p, hka, h0ty, h0rv⟩ := u0
+        obtain ⟨kb, q, hkb, h1ty, h1rv⟩ := u1
+        simp only [hsa, Bool.false_eq_true, if_false]
+        rw [binNodeY_uu env forced hf a har c0 c1 ka kb p q hka hkb h0ty h0rv h1ty h1rv,
+          binNodeY_uu { iota := env.iota } none (fun _ h => by cases h) a har c0 c1 ka kb p q hka hkb h0ty h0rv h1ty h1rv]
+        refine ⟨rfl, ?_⟩
+        intro n hn
+        split at hn
+        · cases hn
+        · split at hn
+          · cases hn
+          · injection hn with hn; subst hn
+            exact ⟨umax ka kb, _, umax_int_or_rune ka kb hka hkb, rfl, rfl⟩
+    -- unfold both walks; whatever the first operand evaluates to, both sides go the same way
+    have hL : evalY F0 env forced (.bin a x y) =
+        (evalY F0 { iota := env.iota } none x).bind fun c0 => (evalY F0 { iota := env.iota } none y).bind fun c1 =>
+          if isShiftAct a = true then shiftNodeY F0 env forced a c0 c1 else binNodeY F0 env forced a c0 c1 := by
+      simp only [evalY, hcl, Bool.false_eq_true, if_false, hx1, hy1, hx0, hy0]
+      cases hcx : evalY F0 { iota := env.iota } none x with
+      | ok c0 =>
         simp only [bind_ok]
-        rcases hf with rfl | ⟨kf, hkf, rfl⟩
-        · -- no type pushed down: the types are Go's
-          simp only at hfor0 hfor1
-          subst hfor0 hfor1
-          have hq' : a = .quo → ¬ (k0 = .rune ∧ k1 = .int) := by
-            intro haq ⟨h1, h2⟩
-            subst haq h1 h2
-            simp [goTyIs, hg0, hg1] at hqa
-          exact ⟨_, binNodeY_uu' env a har c0 c1 k0 k1 p q hk0 hk1 h0ty h0rv h1ty h1rv hq' hz,
-            umax k0 k1, umax k0 k1, _, humaxg, humaxg, rfl, rfl, rfl, rfl⟩
-        · refine ⟨_, binNodeY_uu_forced env kf hkf a har c0 c1 k0 k1 p q hk0 hk1 h0ty h0rv h1ty h1rv hz, ?_⟩
-          by_cases hrem : a = .rem
-          · have hum : umax k0 k1 = .int ∨ umax k0 k1 = .rune := by
-              rcases hk0 with rfl | rfl <;> rcases hk1 with rfl | rfl <;> simp [umax, Spec.ukRank]
-            refine ⟨umax k0 k1, umax kg0 kg1, _, hum, humaxg, by simp [hrem], rfl, rfl, ?_⟩
-            intro hgt
-            simp only at hfor0 hfor1
-            rcases umax_cases kg0 kg1 hkg0 hkg1 with ⟨hu, h0, h1⟩ | ⟨hu, h01⟩
-            · -- both int, pushed type int
-              rw [hu] at hgt
-              have hkf' : kf = .int := by injection hgt with h; exact h.symm
-              subst hkf' h0 h1
-              have e0 : k0 = .int := by have := hfor0 rfl; injection this
-              have e1 : k1 = .int := by have := hfor1 rfl; injection this
-              subst e0 e1; rfl
-            · rw [hu] at hgt
-              have hkf' : kf = .rune := by injection hgt with h; exact h.symm
-              subst hkf'
-              rcases h01 with h | h
-              · subst h
-                have e0 : k0 = .rune := by have := hfor0 rfl; injection this
-                subst e0
-                rcases hk1 with rfl | rfl <;> rfl
-              · subst h
-                have e1 : k1 = .rune := by have := hfor1 rfl; injection this
-                subst e1
-                rcases hk0 with rfl | rfl <;> rfl
-          · exact ⟨kf, umax kg0 kg1, _, hkf, humaxg, by simp [hrem], rfl, rfl, fun _ => rfl⟩
+        cases hcy : evalY F0 { iota := env.iota } none y with
+        | ok c1 =>
+          simp only [bind_ok]
+          obtain ⟨ka, p, hka, h0ty, h0rv⟩ := hx2 c0 hcx
+          obtain ⟨kb, q, hkb, h1ty, h1rv⟩ := hy2 c1 hcy
+          split
+          · rfl
+          · split
+            · simp [h0ty, h1ty, Ty.untyped]
+            · rfl
+        | reject => rfl
+        | crash => rfl
+        | unm w => rfl
+      | reject => rfl
+      | crash => rfl
+      | unm w => rfl
+    have hR : evalY F0 { iota := env.iota } none (.bin a x y) =
+        (evalY F0 { iota := env.iota } none x).bind fun c0 => (evalY F0 { iota := env.iota } none y).bind fun c1 =>
+          if isShiftAct a = true then shiftNodeY F0 { iota := env.iota } none a c0 c1
+          else binNodeY F0 { iota := env.iota } none a c0 c1 := by
+      simp only [evalY, hcl, Bool.false_eq_true, if_false, Bool.false_and]
+    rw [hL, hR]
+    cases hcx : evalY F0 { iota := env.iota } none x with
+    | ok c0 =>
+      simp only [bind_ok]
+      cases hcy : evalY F0 { iota := env.iota } none y with
+      | ok c1 =>
+        simp only [bind_ok]
+        exact key c0 c1 (hx2 c0 hcx) (hy2 c1 hcy)
+      | reject => exact ⟨rfl, fun n h => by cases h⟩
+      | crash => exact ⟨rfl, fun n h => by cases h⟩
+      | unm w => exact ⟨rfl, fun n h => by cases h⟩
+    | reject => exact ⟨rfl, fun n h => by cases h⟩
+    | crash => exact ⟨rfl, fun n h => by cases h⟩
+    | unm w => exact ⟨rfl, fun n h => by cases h⟩
 
 theorem assignGo_ty (x : Spec.GV) (t t' : BT) (v : CV) (h : Spec.assignGo x t = .ok (v, t')) : t' = t := by
   unfold Spec.assignGo at h
@@ -303,34 +238,25 @@ theorem assignGo_ty (x : Spec.GV) (t t' : BT) (v : CV) (h : Spec.assignGo x t = 
     · cases h
 
 /-- **`const c = e`** on the untyped integer fragment: all three walks and the use agree with the specification -/
-theorem const_decl_stages (i : Nat) (e : CExpr) (hs : ufrag e = true) (hq : noRuneQuo i e = true)
+theorem const_decl_stages (i : Nat) (e : CExpr) (hs : ufrag e = true) (hl : litBound e = true)
     (v : CV × BT) (hgo : Spec.declGo i none e = .ok v) (first : Bool) :
     ∃ n m, constGtaY F0 i first none e = .ok n ∧ constCfgY F0 i none e n = .ok m ∧ constUseY F0 m = .ok v := by
   simp only [Spec.declGo] at hgo
   obtain ⟨gv, hgv, hasg⟩ := bind_eq_ok hgo
-  -- first walk
-  obtain ⟨n, hn, k, kg, x, hk, hkg, hnty, hnrv, hgveq, hfor⟩ :=
-    evalY_ufrag e hs { iota := i, inConst := true, noFrame := first } none rfl (Or.inl rfl) hq gv hgv
-  simp only at hfor
-  subst hfor hgveq
-  -- second walk, with the type of the first pushed down
-  obtain ⟨m, hm, k', kg', x', hk', _, hmty, hmrv, hgveq', hfor'⟩ :=
-    evalY_ufrag e hs { iota := i, inConst := true, pass2 := true } (some (.u k)) rfl (Or.inr ⟨k, hk, rfl⟩) hq _ hgv
-  injection hgveq' with hx hk2
-  injection hx with hx
-  injection hk2 with hk2
-  subst hx hk2
-  have hmty' : m.ty = .u k := by rw [hmty]; exact hfor' rfl
-  have hinv : Inv m ⟨.int x, .u k⟩ := Inv.of_untyped m k x hk hmty' hmrv
-  refine ⟨n, m, ?_, ?_, ?_⟩
-  · simp only [constGtaY, unmodelled, unmodelledU_int false e (ufrag_intShape e hs)]
-    exact hn
-  · simp only [constCfgY, hnty]
-    exact hm
+  obtain ⟨n, hn, hinv⟩ := evalY_int_correct { iota := i } rfl e (ufrag_intShape e hs) hl gv hgv
+  obtain ⟨k, x, hk, hnty, hnrv⟩ := (evalY_ufrag_indep e hs { iota := i } none (fun _ h => by cases h)).2 n hn
+  have h1 := (evalY_ufrag_indep e hs { iota := i, inConst := true, noFrame := first } none (fun _ h => by cases h)).1
+  have hnum : NumForced (some n.ty) := by
+    intro f hf; injection hf with hf; subst hf; rw [hnty]; rcases hk with rfl | rfl <;> rfl
+  have h2 := (evalY_ufrag_indep e hs { iota := i, inConst := true, pass2 := true } (some n.ty) hnum).1
+  refine ⟨n, n, ?_, ?_, ?_⟩
+  · simp only [constGtaY, unmodelled_none]; rw [h1]; exact hn
+  · simp only [constCfgY]; rw [h2]; exact hn
   · obtain ⟨cv, t⟩ := v
-    have ht : t = Spec.defaultGo (.u k) := assignGo_ty _ _ _ _ hasg
+    have hgty : gv.ty = .u k := by rw [← hinv.1, hnty]
+    have ht : t = Spec.defaultGo gv.ty := assignGo_ty _ _ _ _ hasg
     subst ht
-    simp only [constUseY, hmty', Ty.untyped, if_true, defaultTypeY_int m _ hinv]
-    exact assign_materialise m _ hinv _ cv hasg (defaultGo_int _ m hinv)
+    simp only [constUseY, hnty, Ty.untyped, if_true, defaultTypeY_int n _ hinv]
+    exact assign_materialise n _ hinv _ cv hasg (defaultGo_int _ n hinv)
 
 end YaegiVerif.Proofs.C03
